@@ -9,11 +9,24 @@
   real store by deleting every subset of *.idx.hash / *.idx.s / *.idx.m before reopening.
   Reference: `specStep` = client commands on the plain map; a rebuild drops tombstones (allowed by C02).
 
+  HINT FILES (GoBeans/Model/HintIndex.lean — store/hint.go hintMgr / hintChunk / HintBuffer.Set, split files sorted by
+  (hash, key), `findValidPaths` (gap-free prefix of the split files kept), `loadHintsByChunk`, `checkHintWithData` /
+  `buildHintFromData` (the rest of the data file rescanned from the largest `datasize` kept, through the same buffer
+  code), `updateHtreeFromHint` (`Ver > 0 → set, else remove`); the merged hint is never read at open): for every
+  log, every cut of every file's records into splits, EVERY SUBSET of split files removed, the tree the start builds
+  from what is left answers every key exactly like `replayTree` of the data log (`C02_hint_files_are_caches`,
+  `C02_any_hint_subset_removed`, `C02_restart_on_reachable_bucket`) — so the abstraction "restart = replay of the
+  data" used by the theorems below is what the hint mechanism computes, whichever hint files survive.  A differential
+  run of this model against the real store (hint file contents and per-key tree items after removing random subsets
+  of *.idx.s files: 1103 cases, no mismatch) is recorded in notes/REPORT-hintindex.md; on every run the same
+  abstraction is exercised by engine `seq` (restart modes with every class of index-file subset removed).
+
   Quantifier: every history as in C01 with a restart of either kind inserted at every position, repeatedly.
   Proviso of the property, as hypothesis: `check_vhash` off (versions changed without a data write — the
   same-value explicit-revision sets — are not recoverable from data; with `keepTree = true` they survive).
 -/
 import GoBeans.Lemmas.Log
+import GoBeans.Lemmas.HintIndex
 import GoBeans.Props.C01
 
 open Store Spec StoreLemmas
@@ -78,6 +91,43 @@ theorem C02_history_with_restarts (hash : Key → Nat) (K : Key → Prop) (hInj 
   have := run_refines_restart hash K cfg hcv hInj R ops R {} []
     (inv_mono hash K (Nat.zero_le R) (inv_init hash K)) (lr_init hash K) (by simp [AMap.NodupKeys]) (Nat.le_refl R) hbound hops
   exact ⟨this.1, this.2.2⟩
+
+/-! hint files are rebuildable caches -/
+section Hints
+open HintIndex HintIndexLemmas HintLoadLemmas HintBufferLemmas
+
+/-- every log, every cut into splits per file, every subset of files whose hints were rebuilt from the data: the tree
+    built from hint files answers every key like the replay of the data -/
+theorem C02_hint_files_are_caches (hash : Key → Nat) (K : Key → Prop) (hInj : InjOn hash K) (files : List FileRecs)
+    (hK : ∀ f ∈ files, ∀ p ∈ f, K p.2.key) (cuts : List (List Nat)) (gone : List Bool) (k : Key) (hk : K k) :
+    AMap.get (hintReplay (chooseHints hash files cuts gone)) (hash k) =
+      AMap.get (replayTree hash (logOf files)) (hash k) :=
+  hints_cut_or_rebuilt hash K hInj files hK cuts gone k hk
+
+/-- the code path of a start: split files as the write path leaves them under ANY interleaving of record writes and
+    split closings, ANY subset of the *.idx.s files removed, then `Bucket.open` -/
+theorem C02_any_hint_subset_removed (hash : Key → Nat) (K : Key → Prop) (hInj : InjOn hash K) (cap : Nat) (hcap : 1 ≤ cap)
+    (ess : List (List (Option (Nat × Rec))))
+    (hK : ∀ es ∈ ess, ∀ p ∈ es.filterMap id, K p.2.key) (hc : ∀ es ∈ ess, Contig (es.filterMap id))
+    (disks : List (List (Option SplitFile)))
+    (hm : Forall2 (fun es disk => Masked (HChunk.run cap (es.map (evOf hash false))).disk disk) ess disks)
+    (k : Key) (hk : K k) :
+    AMap.get (restartTree hash cap (ess.map (fun es => es.filterMap id)) disks) (hash k) =
+      AMap.get (replayTree hash (logOf (ess.map (fun es => es.filterMap id)))) (hash k) :=
+  written_removed_restart hash K hInj cap hcap ess hK hc disks hm k hk
+
+/-- on a bucket reached by any history with restarts: the tree the hint mechanism builds from whatever split files are
+    left equals, on every key, the tree of the model's rebuilding restart -/
+theorem C02_restart_on_reachable_bucket (hash : Key → Nat) (K : Key → Prop) (hInj : InjOn hash K) (cfg : Store.Cfg)
+    (cap : Nat) (hcap : 1 ≤ cap) (R : Nat) (ops : List Op) (hops : ∀ op ∈ ops, OpOK2 K R op)
+    (hK : ∀ x ∈ (Store.run hash cfg {} ops).1.log, K x.2.key)
+    (disks : List (List (Option SplitFile)))
+    (hd : Forall2 (DiskOK hash) ((Store.run hash cfg {} ops).1.chunkList.map (·.recs)) disks) (k : Key) (hk : K k) :
+    AMap.get (restartTree hash cap ((Store.run hash cfg {} ops).1.chunkList.map (·.recs)) disks) (hash k) =
+      AMap.get (Store.step hash cfg (Store.run hash cfg {} ops).1 (.reopen false)).1.tree (hash k) :=
+  bucket_restart_eq_reopen hash K hInj cfg cap hcap R ops hops hK disks hd k hk
+
+end Hints
 
 /-- The schedule part of C02 (shutdown racing the post-rotation flush goroutine / the hint dumper) is NOT
     covered by the sequential model: `Bucket.close` flushes only the head file.  It is stated here so that the
